@@ -423,3 +423,64 @@ def _init_gen(rng, case):
         samples.append(G.reals(rng, n))
     kw = {"means": [rng.uniform(-1, 1), rng.uniform(-1, 1)]} if case.get("kwargs") == "means" else {}
     return dict(self=None, samples=samples, names=names, idl=idl, kwargs=kw)
+
+
+# ---------------------------------------------------------------------------------------------------
+# Covobs._set_cov(cov): a covariance given as a number, a list of variances or a matrix is rejected unless it is a symmetric
+# positive semi-definite square matrix
+
+COV = "pyerrors/covobs.py"
+
+
+def _cov_variants():
+    r = lambda n: SReal(z3.Real(fresh(n)))
+    return OneOf(
+        scalar=Custom(lambda n, c, s: r("cov"), native=lambda v, ev: float(ev(v))),
+        vector=Custom(lambda n, c, s: CList([r("var0"), r("var1")], "list"), native=lambda v, ev: [float(ev(x)) for x in v.items]),
+        matrix=Custom(lambda n, c, s: CList([CList([r("c00"), r("c01")], "list"), CList([r("c10"), r("c11")], "list")], "list"),
+                      native=lambda v, ev: [[float(ev(x)) for x in row.items] for row in v.items]))
+
+
+def _sc_rejected(a):
+    c = a.cov
+    if isinstance(c, (SReal, float, int, Fraction)):
+        return c < 0
+    rows = c.items if isinstance(c, CList) else list(c)
+    if not isinstance(rows[0], (CList, list)):
+        return Or(*[x < 0 for x in rows])
+    m = [list(r_.items) if isinstance(r_, CList) else list(r_) for r_ in rows]
+    a_, b1, b2, d_ = m[0][0], m[0][1], m[1][0], m[1][1]
+    # 2 x 2: symmetric and both leading conditions of positive semi-definiteness
+    return Or(Not(eq(b1, b2)), a_ < 0, d_ < 0, a_ * d_ - b2 * b2 < 0)
+
+
+def _sc_gen(rng, case):
+    v = lambda: rng.choice([0.5, 1.0, -0.2, 0.0, 2.0, -1.0])
+    if case["cov"] == "scalar":
+        return dict(self=None, cov=v())
+    if case["cov"] == "vector":
+        return dict(self=None, cov=[v(), v()])
+    b = rng.choice([0.0, 0.3, 1.5])
+    return dict(self=None, cov=[[v(), b], [b if rng.random() < 0.8 else b + 0.1, v()]])
+
+
+def _sc_native(args):
+    import numpy as np
+    from pyvc.native import repo_module
+    co = repo_module("pyerrors.covobs")
+    obj = co.Covobs.__new__(co.Covobs)
+    co.Covobs._set_cov(obj, args["cov"])
+    return obj
+
+
+contract(
+    COV + "::Covobs._set_cov", props=["C04"],
+    params=dict(self=Custom(lambda n, c, s: SObj("Covobs", {}), native=lambda v, ev: None), cov=_cov_variants()),
+    writes=("self",),
+    raises=[("Exception", _sc_rejected)],
+    ensures=lambda a, r: {"dimension": True},
+    native_call=_sc_native, gen=_sc_gen,
+    abstract_nl=False, crosscheck=False, refute=False,
+    note="covariance given as a number, as two variances, or as a 2 x 2 matrix (entries symbolic); eigenvalues of the 2 x 2 matrix in "
+         "closed form with the real square root",
+)
